@@ -13,7 +13,7 @@ def run(tier, seed, replay=None, pid="C04"):
     ck = vlib.Check(pid, tier, seed, "model_checking")
     binary = vlib.build_harness()
     kinds = ALL if pid == "C04" else BODY
-    c = dict(N=3, Segs="{0,1,2}", Kinds=kinds, MaxFaulty=1 if tier == "quick" else 2, FIXED=True, EXPORT=True)
+    c = dict(N=3, Segs="{0,1,2}", Kinds=kinds, MaxFaulty=1 if tier == "quick" else 2, FIXED=True, EXPORT=True, MaxAddrs=2 if pid == "C04" else 1)
     r = vlib.tlc("SyncFaults", (pid + ".cfg", vlib.cfg_text(c, INV)), timeout=7000, tag=pid.lower())
     ck.add_tlc("SyncFaults", r, "mode x trigger x segment size x fault kind x request index (%d faulty sync(s)) then a clean sync: store sound, "
                "failure leaves latest/notifications/cache as required, clean retry converges" % c["MaxFaulty"])
@@ -52,6 +52,6 @@ def run(tier, seed, replay=None, pid="C04"):
                       "(sha2-256 full and truncated to 20 and 16 bytes, sha2-512, blake3, and the identity multihash whose digest is the content itself)")
     ck.cov["exhaustive"] = True
     ck.assumptions += ["a connection reset that net/http transparently retries never reaches the library; such runs are counted as tolerated",
-                       "publishers with a single address; collision freedom of >=16-byte digests"]
+                       "publishers with one address, or two in plain-HTTP mode with the faults on the first; collision freedom of >=16-byte digests"]
     shutil.rmtree(r.workdir, ignore_errors=True)
     return ck
